@@ -111,7 +111,7 @@ def run_case(spec):
             src = files[path]
             resource = project.get_file(path)
             if spec.get("relayout"):
-                m = layoutfuzz.mutate(src, rnd, n_mutations=6, kinds=["bracket-newline"])
+                m = layoutfuzz.break_in_brackets(src, rnd, 6)
                 if m:
                     m = m.replace("\t", "    ")      # continuation lines only (the generator writes no tabs)
                 if m and m != src:
